@@ -281,6 +281,9 @@ type World struct {
 	listenAddr       map[string]*net.UDPAddr // model client -> server address it talks to
 	clientAddr       map[string]*net.UDPAddr
 	clients          map[string]*MemConn
+	streams          map[string]*MemStream // model clients s1, s2: a control connection to the stream listener
+	streamRest       map[string][]byte     // bytes of an incomplete frame read from that connection
+	lisS             *MemListener
 	peerIP           map[string]net.IP
 	peerPort         map[int]int
 	peers            map[string]*MemConn // key "A/1"
@@ -298,6 +301,7 @@ type World struct {
 
 	evMu   sync.Mutex
 	Events []Event
+	held   map[string]int // user -> allocations it holds (from OnAllocationCreated / OnAllocationDeleted)
 
 	tokenOf   map[string]string // client -> RESERVATION-TOKEN most recently issued to it
 	evenPort  map[string]int    // client -> the even relayed port that token stands next to
@@ -411,10 +415,10 @@ func NewWorld(meta Meta, seed int64) (*World, error) {
 		Meta: meta, Seed: seed, Var: Variants[int(uint64(seed)%uint64(len(Variants)))],
 		Net: NewMemNet(), Tick: time.Second,
 		listenAddr: map[string]*net.UDPAddr{}, clientAddr: map[string]*net.UDPAddr{},
-		clients: map[string]*MemConn{}, peerIP: map[string]net.IP{}, peerPort: map[int]int{},
+		clients: map[string]*MemConn{}, streams: map[string]*MemStream{}, streamRest: map[string][]byte{}, peerIP: map[string]net.IP{}, peerPort: map[int]int{},
 		peers: map[string]*MemConn{}, peerKey: map[string]peerKeyT{}, relayOwner: map[string]string{}, relayOf: map[string]*net.UDPAddr{},
 		curPay: map[string][]byte{}, allocTxid: map[string][stun.TransactionIDSize]byte{},
-		tokenOf: map[string]string{}, evenPort: map[string]int{},
+		tokenOf: map[string]string{}, evenPort: map[string]int{}, held: map[string]int{},
 	}
 	srv4 := &net.UDPAddr{IP: net.IPv4(10, 0, 0, 1).To4(), Port: 3478}
 	srv6 := &net.UDPAddr{IP: net.ParseIP("fd00::1"), Port: 3478}
@@ -428,6 +432,16 @@ func NewWorld(meta Meta, seed int64) (*World, error) {
 	for _, c := range names {
 		var a *net.UDPAddr
 		switch {
+		case strings.HasPrefix(c, "s"):
+			// a stream client: s1 has the IP and port of c1 (the 5-tuples differ in the transport only)
+			a = &net.UDPAddr{IP: net.IPv4(10, 0, 0, 11).To4(), Port: 40001}
+			if c != "s1" {
+				a = &net.UDPAddr{IP: net.IPv4(10, 0, 0, 12).To4(), Port: 40002}
+			}
+			w.listenAddr[c] = srv4
+			w.clientAddr[c] = a
+
+			continue
 		case meta.ListenFam[c] == 6:
 			a = &net.UDPAddr{IP: net.ParseIP("fd00:2::11"), Port: 40006}
 			w.listenAddr[c] = srv6
@@ -510,18 +524,46 @@ func NewWorld(meta Meta, seed int64) (*World, error) {
 		EventHandler:        w.eventHandler(),
 		InboundMTU:          meta.InboundMTU,
 	}
-	if len(meta.QuotaDenied) > 0 {
+	quotaOne := false
+	for _, u := range meta.Users {
+		quotaOne = quotaOne || strings.HasPrefix(u, "q")
+	}
+	if len(meta.QuotaDenied) > 0 || quotaOne {
 		over := map[string]bool{}
 		for _, u := range meta.QuotaDenied {
 			over[u] = true
 		}
-		cfg.QuotaHandler = func(username, _ string, _ net.Addr) bool { return !over[username] }
+		// users q1, q2: one allocation at a time, counted from the lifecycle events as an operator would
+		cfg.QuotaHandler = func(username, _ string, _ net.Addr) bool {
+			if over[username] {
+				return false
+			}
+			if strings.HasPrefix(username, "q") {
+				w.evMu.Lock()
+				n := w.held[username]
+				w.evMu.Unlock()
+
+				return n == 0
+			}
+
+			return true
+		}
 	}
 	useDefaults := w.Var.Defaults && meta.DefaultLife == 600 && meta.PermTO == 300 && meta.ChanTO == 600
 	if !useDefaults {
 		cfg.AllocationLifetime = time.Duration(meta.DefaultLife) * w.Tick
 		cfg.PermissionTimeout = time.Duration(meta.PermTO) * w.Tick
 		cfg.ChannelBindTimeout = time.Duration(meta.ChanTO) * w.Tick
+	}
+	for _, c := range names {
+		if strings.HasPrefix(c, "s") && w.lisS == nil {
+			lis, err := w.Net.ListenTCP(&net.TCPAddr{IP: srv4.IP, Port: srv4.Port})
+			if err != nil {
+				return nil, err
+			}
+			w.lisS = lis
+			cfg.ListenerConfigs = []turn.ListenerConfig{{Listener: lis, RelayAddressGenerator: w.gen, PermissionHandler: permHandler}}
+		}
 	}
 	if meta.Extra["auth"] == "no" {
 		cfg.AuthHandler = nil
@@ -532,8 +574,57 @@ func NewWorld(meta Meta, seed int64) (*World, error) {
 		return nil, err
 	}
 	w.Srv = srv
+	for _, c := range names {
+		if strings.HasPrefix(c, "s") {
+			if err := w.dialStream(c); err != nil {
+				return nil, err
+			}
+		}
+	}
 
 	return w, nil
+}
+
+func (w *World) isStream(c string) bool { return strings.HasPrefix(c, "s") }
+
+func (w *World) dialStream(c string) error {
+	a := w.clientAddr[c]
+	st, err := w.Net.DialTCP(&net.TCPAddr{IP: a.IP, Port: a.Port}, &net.TCPAddr{IP: w.listenAddr[c].IP, Port: w.listenAddr[c].Port})
+	if err != nil {
+		return err
+	}
+	w.streams[c] = st
+	w.streamRest[c] = nil
+
+	return nil
+}
+
+// drainClient returns what client c received since the last call: datagrams, or the complete frames of
+// its control connection (a STUN message is 20 bytes + its length, ChannelData 4 + its length padded to 4).
+func (w *World) drainClient(c string) []Pkt {
+	if !w.isStream(c) {
+		return w.clients[c].Drain()
+	}
+	st := w.streams[c]
+	if st == nil {
+		return nil
+	}
+	buf := append(w.streamRest[c], st.Buffered()...)
+	var out []Pkt
+	for len(buf) >= 4 {
+		n := 20 + int(binary.BigEndian.Uint16(buf[2:4]))
+		if buf[0]&0xc0 != 0 {
+			n = 4 + (int(binary.BigEndian.Uint16(buf[2:4]))+3)/4*4
+		}
+		if len(buf) < n {
+			break
+		}
+		out = append(out, Pkt{Data: append([]byte{}, buf[:n]...), From: w.listenAddr[c]})
+		buf = buf[n:]
+	}
+	w.streamRest[c] = append([]byte{}, buf...)
+
+	return out
 }
 
 // Close tears the world down so that the bubble can end.
@@ -542,18 +633,31 @@ func (w *World) Close() {
 	for _, c := range w.clients {
 		_ = c.Close()
 	}
+	for _, st := range w.streams {
+		_ = st.Close()
+	}
+	if w.lisS != nil {
+		_ = w.lisS.Close()
+	}
 	for _, p := range w.peers {
 		_ = p.Close()
 	}
 }
 
 func (w *World) clientName(a net.Addr) string {
-	ua, ok := a.(*net.UDPAddr)
-	if !ok {
+	var ip net.IP
+	var port int
+	stream := false
+	switch t := a.(type) {
+	case *net.UDPAddr:
+		ip, port = t.IP, t.Port
+	case *net.TCPAddr:
+		ip, port, stream = t.IP, t.Port, true
+	default:
 		return "?" + a.String()
 	}
 	for c, ca := range w.clientAddr {
-		if ca.IP.Equal(ua.IP) && ca.Port == ua.Port {
+		if ca.IP.Equal(ip) && ca.Port == port && w.isStream(c) == stream {
 			return c
 		}
 	}
@@ -604,12 +708,18 @@ func (w *World) ev(kind, key string) {
 func (w *World) eventHandler() turn.EventHandler {
 	return turn.EventHandler{
 		OnAllocationCreated: func(src, _ net.Addr, _, user, _ string, relay net.Addr, _ int) {
+			w.evMu.Lock()
+			w.held[user]++
+			w.evMu.Unlock()
 			w.ev("alloc+", w.clientName(src)+"|"+user+"|"+relay.String())
 		},
 		OnAllocationDeleted: func(src, _ net.Addr, _, user, _ string) {
 			if w.gate != nil {
 				w.gate("callout.allocdeleted")
 			}
+			w.evMu.Lock()
+			w.held[user]--
+			w.evMu.Unlock()
 			w.ev("alloc-", w.clientName(src)+"|"+user)
 		},
 		OnPermissionCreated: func(src, _ net.Addr, _, _, _ string, _ net.Addr, peer net.IP) {
@@ -704,8 +814,16 @@ func (w *World) payload(id string, n int) []byte {
 	if n < 0 {
 		h := sha256.Sum256([]byte(fmt.Sprintf("len/%d/%d/%s", w.Seed, w.step, id)))
 		n = 1 + int(h[0])%48
+		if id == "cookie" {
+			n += 16
+		}
 	}
 	switch id {
+	case "cookie": // begins with the STUN magic cookie: bytes 4..7 of a ChannelData message carrying it are a STUN message's
+		b := w.payloadRand(id, n)
+		copy(b, []byte{0x21, 0x12, 0xa4, 0x42})
+
+		return b
 	case "zeros":
 		return make([]byte, n)
 	case "stunlike": // a Binding request header (and, when long enough, a Send indication header) as payload
@@ -795,6 +913,16 @@ func (w *World) authed(u string, id [stun.TransactionIDSize]byte, method stun.Me
 }
 
 func (w *World) sendFromClient(c string, raw []byte) {
+	if w.isStream(c) {
+		if st := w.streams[c]; st != nil {
+			if len(raw) >= 4 && raw[0]&0xc0 != 0 && len(raw)%4 != 0 { // ChannelData over a stream is padded to 4
+				raw = append(append([]byte{}, raw...), make([]byte, 4-len(raw)%4)...)
+			}
+			_, _ = st.Write(raw)
+		}
+
+		return
+	}
 	_, _ = w.clients[c].WriteTo(raw, w.listenAddr[c])
 }
 
@@ -964,6 +1092,15 @@ func (w *World) do1(a map[string]any, wait func()) (obs []Obs, retry bool, err e
 				close(conn.ReadErr) // the relay socket's next read fails
 			}
 		}
+	case "ConnClose":
+		// the control connection of a stream client ends; a new one from the same address serves later steps
+		if st := w.streams[c]; st != nil {
+			_ = st.Close()
+		}
+		wait()
+		if err := w.dialStream(c); err != nil {
+			return nil, false, err
+		}
 	case "ServerClose":
 		_ = w.Srv.Close()
 		w.down = true
@@ -1032,13 +1169,13 @@ func (w *World) payID(b []byte) any {
 
 // collect drains every endpoint and translates what arrived into spec vocabulary.
 func (w *World) collect(action, actor string) (obs []Obs, retry bool) {
-	cnames := make([]string, 0, len(w.clients))
-	for c := range w.clients {
+	cnames := make([]string, 0, len(w.clientAddr))
+	for c := range w.clientAddr {
 		cnames = append(cnames, c)
 	}
 	sort.Strings(cnames)
 	for _, c := range cnames {
-		for _, pk := range w.clients[c].Drain() {
+		for _, pk := range w.drainClient(c) {
 			o := w.decodeAtClient(c, pk)
 			if n, ok := o["nonce"].(string); ok && w.noRetry && n != "" {
 				w.nonce = n // always present the nonce of the most recent challenge
@@ -1152,7 +1289,11 @@ func (w *World) decodeAtClient(c string, pk Pkt) Obs {
 		}
 		var xm stun.XORMappedAddress
 		if xm.GetFrom(m) == nil {
-			o["mapped"] = w.clientName(&net.UDPAddr{IP: xm.IP, Port: xm.Port})
+			if ca := w.clientAddr[c]; ca != nil && ca.IP.Equal(xm.IP) && ca.Port == xm.Port {
+				o["mapped"] = c
+			} else {
+				o["mapped"] = w.clientName(&net.UDPAddr{IP: xm.IP, Port: xm.Port})
+			}
 		}
 		var ra proto.RelayedAddress
 		if ra.GetFrom(m) == nil {
@@ -1231,7 +1372,20 @@ func (w *World) Project() Proj {
 
 				continue
 			}
-			al := m.GetAllocation(&allocation.FiveTuple{SrcAddr: ca, DstAddr: la, Protocol: allocation.UDP})
+			var al *allocation.Allocation
+			if mi == 2 { // the stream listener's manager (the server keys these 5-tuples with allocation.UDP as well)
+				la = w.listen4.addr
+				if !w.isStream(c) {
+					continue
+				}
+				al = m.GetAllocation(&allocation.FiveTuple{SrcAddr: &net.TCPAddr{IP: ca.IP, Port: ca.Port},
+					DstAddr: &net.TCPAddr{IP: la.IP, Port: la.Port}, Protocol: allocation.UDP})
+			} else {
+				if w.isStream(c) {
+					continue
+				}
+				al = m.GetAllocation(&allocation.FiveTuple{SrcAddr: ca, DstAddr: la, Protocol: allocation.UDP})
+			}
 			if al == nil {
 				continue
 			}
